@@ -121,6 +121,8 @@ func needsV2(m *gen.Module, toks []string) bool {
 var structural = []string{"end", "else", "unreachable", "return", "br:0", "br:1", "br_if:0", "br_table:0,0", "br_table:0,1,0", "drop", "select",
 	"block:e", "block:i32", "loop:e", "loop:i64", "if:e", "if:f32", "i32.const:0", "i64.const:0", "f32.const:0", "f64.const:0", "memory.size", "memory.grow"}
 
+// exponents 32..62 are rejected by both variants; the model's alignSane draws the line at 63, the repaired
+// code at 32 — both agree on every value used here
 var aligns = []string{"0", "1", "2", "3", "4", "5", "31", "32", "62", "63", "64", "65", "4294967295"}
 
 func mutateTokens(r *rand.Rand, toks []string, alphabet []string) ([]string, string) {
@@ -245,6 +247,9 @@ func runValJob(j valJob) {
 		return
 	}
 	realOK := o.Resp.Validate != nil && o.Resp.Validate.OK
+	if model == "ok align-quirk" && !alignQuirk {
+		model = "err alignment-exponent-over-31" // repaired variant: accepts = check && alignSane
+	}
 	if !o.Resp.Decode.OK {
 		// the assembler produced something the decoder refuses (e.g. a body that does not end with `end`): not a validator case
 		rep.Count("validator-tie:decode-rejected")
@@ -269,7 +274,33 @@ func runValJob(j valJob) {
 	}
 }
 
+// alignQuirk: finding switch F37 — does the validator under test accept an alignment exponent of 64?
+var alignQuirk bool
+
+func probeAlignQuirk() {
+	m := &gen.Module{Types: []gen.FuncType{{}}, Funcs: []gen.Func{{Type: 0}}, HasMem: true, MemMin: 1}
+	asm, err := assembleExt([]string{"i32.const:0", "i32.load@64:0", "drop"})
+	if err != nil {
+		hx.Fatal("align probe: %v", err)
+	}
+	m.Funcs[0].Code = asm
+	c := mkCase("F37-probe", "probe", "v2", m.Binary(), "probe")
+	o := pool.Run(c.req("validate"), caseDeadline)
+	if o.Resp == nil || !o.Resp.Decode.OK || o.Resp.Validate == nil {
+		hx.Fatal("align probe: no answer (%s %s)", o.Crash, o.Stderr)
+	}
+	alignQuirk = o.Resp.Validate.OK
+	if alignQuirk {
+		rep.Count("validator-variant:as-is(alignment exponents >= 63 accepted, F37)")
+		rep.Note("finding switch F37: `i32.load align=2^64` is ACCEPTED by Module.Validate - the as-is validator model (check) is tied; validate_sound_W0 covers the bodies with alignSane only, validate_asIs_alignment_witness is the counterexample")
+	} else {
+		rep.Count("validator-variant:repaired(alignment exponents >= 32 rejected)")
+		rep.Note("finding switch F37: `i32.load align=2^64` is rejected - the repaired variant (check && alignSane) is tied and validate_sound_W0 is its full soundness theorem")
+	}
+}
+
 func tieValidator(r *rand.Rand, par int) {
+	probeAlignQuirk()
 	nmods, nmut := 40, 8
 	if hx.Thorough() {
 		nmods, nmut = 1200, 14
